@@ -93,7 +93,11 @@ inline std::string checkAgreement(const Snap &s, bool namedDeclarations, const s
 // frames left empty by an indexed add beyond the end are not 'filled' frames
 struct GapTracker {
     std::set<size_t> gaps; size_t preFrames = 0;
+    bool named = true;       // false once a file was loaded whose label tables do not match the points / channels in use (vendor layout)
     void before(Interp &in) { preFrames = in.o().data().nbFrames(); }
+    void afterLoad(Interp &in, const Op &op, const Outcome &o) {
+        if (op.code == "load" && !o.threw) { Shape sh = shapeOf(in.o()); if (sh.plabels.size() != sh.nP || sh.alabels.size() != sh.nC) named = false; }
+    }
     void after(const Op &op, const Outcome &o) {
         if (o.threw || o.skipped) return;
         if (o.note.rfind("extend", 0) == 0) { size_t idx = static_cast<size_t>(atoll(o.note.c_str() + 7)); for (size_t g = preFrames; g < idx; ++g) gaps.insert(g); }
